@@ -69,7 +69,7 @@ def check(case):
             for newi, oldi in enumerate(order):
                 s = prog[oldi]
                 heads = []
-                if s[0] in ("fact", "rule"):
+                if s[0] in ("fact", "rule", "rule_or"):
                     heads = [s[1]]
                 elif s[0] == "pfact":
                     heads = [s[2]]
@@ -102,12 +102,16 @@ def _strategy(nperm):
     def f():
         perm = st.tuples(st.lists(st.integers(0, 20), min_size=1, max_size=12),
                          st.lists(st.lists(st.integers(0, 5), min_size=1, max_size=3), min_size=1, max_size=4))
-        return st.tuples(gp.programs(allow_shuffle=False), st.lists(perm, min_size=nperm, max_size=nperm)).map(
+        progs = st.one_of(gp.programs(allow_shuffle=False),
+                          gp.programs(allow_shuffle=False, share_bias=True, max_preds=3))
+        return st.tuples(progs, st.lists(perm, min_size=nperm, max_size=nperm)).map(
             lambda t: {"prog": t[0], "perms": [[list(p[0]), [list(x) for x in p[1]]] for p in t[1]]})
     return f
 
 
 KNOWN_CLASSES = {
+    "cyclic_or_complement": lambda case, failure: gp.cyclic_body_disjunction_with_complement(case["prog"]),
+    "zero_prob_or_complementary_body": lambda case, failure: gp.zero_prob_or_complementary_body(case["prog"]),
     "negcycle_fp": lambda case, failure: gp.neg_on_cyclic_goal_under_active_cycle(case["prog"]),
     "neg_under_cycle": lambda case, failure: gp.neg_under_active_cycle(case["prog"]),
     "ad_cyclic_complement": lambda case, failure: gp.cyclic_multihead_ad_with_complementary_body(case["prog"]),
